@@ -219,6 +219,69 @@ def run(report, p):
         if any("directory_hashes" in t for t in tg if t in p.funcs):
             r4.check(False, sf, c, "single-file mode records directory entries")
 
+    # ------------------------------------------------------------------ R2.11
+    r11 = report.rule(
+        "R2.11",
+        "-sf completeness: every named file, and every file below a named folder, reaches the seal call on every path of its loop iteration (the only iterations that pass "
+        "without it are those of a traversed child that is a directory): no filter - by identity of the file (device / inode), by an earlier occurrence, by size or type - decides "
+        "that a named path gets no record. Generators that hand the paths to the sealing loop are judged the same way (a path must be yielded on every path of its iteration)",
+        2,
+    )
+    # the -sf command and the package generators it consumes (the paths may be produced by a generator and sealed by the loop that consumes it)
+    S11 = [sf]
+    for q in sorted(p.reachable([sf.qual])):
+        f_ = p.funcs[q]
+        if f_ is not sf and f_.is_generator() and f_.module is sf.module and f_ not in travs:
+            S11.append(f_)
+    gen_quals = {f_.qual for f_ in S11 if f_ is not sf}
+    n_loops11 = 0
+    for fn in S11:
+        gfn = cfg_of(fn)
+        deliver = set()
+        for c, tg in p.calls[fn.qual]:
+            if seal.qual in tg:
+                deliver.add(gfn.node_for(c).id)
+        for n in walk_no_nested(fn.node):
+            if isinstance(n, (ast.Yield, ast.YieldFrom)):
+                deliver.add(gfn.node_for(n).id)
+        if not deliver:
+            continue
+        loops11 = [n for n in walk_no_nested(fn.node) if isinstance(n, ast.For) and any(_inside(gfn.nodes[i].ast, n) for i in deliver)]
+        seal_args = {norm(c.args[1]) for c, tg in p.calls[fn.qual] if seal.qual in tg and len(c.args) > 1} | {norm(n.value) for n in walk_no_nested(fn.node) if isinstance(n, ast.Yield) and n.value is not None}
+        for lp_ in loops11:
+            n_loops11 += 1
+            r11.instance(fn, lp_, f"{fn.name}: for {norm(lp_.target)} in {norm(lp_.iter)[:40]}")
+            ln_ = gfn.by_ast[id(lp_)]
+            inner_loops = [x for x in ast.walk(lp_) if isinstance(x, ast.For) and x is not lp_ and x in loops11]
+            isdir_nm = lp_.target.elts[1].id if isinstance(lp_.target, ast.Tuple) and len(lp_.target.elts) == 2 and isinstance(lp_.target.elts[1], ast.Name) and not inner_loops else None
+            inner_heads = {gfn.by_ast[id(x)].id for x in inner_loops}
+            bad11 = None
+            for kind, conds, trail in loop_iteration_paths(gfn, ln_):
+                if kind != "back" or any(x.id in deliver for x in trail):
+                    continue
+                if isdir_nm is not None and any(isinstance(c, ast.Name) and c.id == isdir_nm and l == "T" for c, l in conds):
+                    continue  # a directory below a named folder: no record in -sf mode
+                if any(x.id in inner_heads for x in trail):
+                    continue  # a named folder / a traversed folder: judged through the loop over its children
+                # leaving out a path that was delivered before under the very same name is no loss: membership of the path ITSELF in a collection
+                same_name = False
+                for c, l in conds:
+                    for a_, l_ in (atomic_deps(c, l) if l in ("T", "F") and not isinstance(c, (ast.For, ast.While)) else []):
+                        if " in " in a_ and l_ == "T" and a_.split(" in ")[0] in seal_args:
+                            same_name = True
+                if same_name:
+                    continue
+                bad11 = (conds, trail)
+                break
+            if bad11 is None:
+                r11.check(True, fn, lp_, "")
+                continue
+            conds, trail = bad11
+            why = [(norm(c)[:50], l) for c, l in conds if not isinstance(c, (ast.For, ast.While)) and l in ("T", "F")]
+            r11.check(False, fn, trail[-2].ast if len(trail) > 1 else lp_, f"a file named with -sf (or lying below a named folder) can pass its loop iteration without being sealed when {'; '.join('`' + t + '` is ' + ('true' if l == 'T' else 'false') for t, l in why[-4:]) or 'nothing at all is tested'}: the new generation holds no record for it although the command exits 0 (two hard links of one file, a path that came up before under another name)", witness=gfn.fmt_path(trail)[:400], construct="-sf file path without seal")
+    if not any(seal.qual in tg for c, tg in p.calls[sf.qual]):
+        raise AnalysisError("create -sf: no seal call in the command itself (sealing moved into a helper that was not inlined)")
+
     # ------------------------------------------------------------------ R2.5
     r5 = report.rule("R2.5", "containment: a record key derived from a user-named path (not from a traversal of the history root) is guarded by a containment test against the root before it is made relative", 1)
     for c, tg in p.calls[sf.qual]:
@@ -298,6 +361,7 @@ def run(report, p):
     lazy_reuse_rule(report, p, 'R2.8', [need(cmds, 'create').qual], 'create')
 
     # ---- rules shared with other properties (same mechanism, same rule, reported under every property it can break)
+    include_rules(report, p, 'c12', ['R12.12'], 'exactly the files the effective patterns do not exclude are recorded: the one pathspec of the run must not change while the tree is traversed')
     include_rules(report, p, 'c03', ['R3.11'], 'create logs every file it records; a logger that raises aborts the run before the generation is written')
     include_rules(report, p, 'c08', ['R8.1', 'R8.2'], 'records must land in the deepest history with a path relative to its root (routing)')
     include_rules(report, p, 'c01', ['R1.1'], 'a record carries a correct digest only if the whole file is hashed')
